@@ -823,7 +823,48 @@ func (f *frame) pathConds(b *ssa.BasicBlock) []string {
 	}
 	ps := rec(b)
 	if tooMany {
+		// too many whole paths: split over the path suffixes of bounded depth instead (every way of reaching b ends
+		// with one of them, so they still cover); the deepest suffix set that stays small is used
 		ps = nil
+		for depth := 1; depth <= 12; depth++ {
+			over := false
+			var sfx func(x *ssa.BasicBlock, d int) []string
+			sfx = func(x *ssa.BasicBlock, d int) []string {
+				if d == 0 || x == entry || x.Index == 0 {
+					return []string{"true"}
+				}
+				var out []string
+				any := false
+				for i, p := range x.Preds {
+					if l := f.loops[x]; l != nil && l.blocks[p] {
+						continue
+					}
+					if _, done := f.blkR[p]; !done {
+						continue
+					}
+					any = true
+					c := f.predEdge(x, i)
+					for _, pc := range sfx(p, d-1) {
+						out = append(out, and(pc, c))
+						if len(out) > 16 {
+							over = true
+							return out
+						}
+					}
+				}
+				if !any {
+					return []string{"true"}
+				}
+				return out
+			}
+			cand := sfx(b, depth)
+			if over {
+				break
+			}
+			if len(cand) > 1 {
+				ps = cand
+			}
+		}
 	}
 	f.pathMemo[b] = ps
 	return ps
